@@ -400,6 +400,9 @@ func isNumCellBuf(b *Buf) bool {
 // loadNum reads a scalar of sort s and width w bytes at byte offset off.
 func (ex *Exec) loadNum(b *Buf, off *Term, s Sort, w int) *Term {
 	ts := ex.ts
+	if ex.evlog != nil {
+		ex.evLoadBuf(b)
+	}
 	if !isNumCellBuf(b) {
 		panic(abortPath{"numeric load from non-numeric buffer " + b.what})
 	}
@@ -450,6 +453,9 @@ func (ex *Exec) loadNum(b *Buf, off *Term, s Sort, w int) *Term {
 // storeNum writes a scalar of width w bytes at byte offset off. guard (may be nil) makes the store conditional.
 func (ex *Exec) storeNum(b *Buf, off *Term, val *Term, w int, guard *Term) {
 	ts := ex.ts
+	if ex.evlog != nil {
+		ex.evStoreBuf(b, guard)
+	}
 	if !isNumCellBuf(b) {
 		panic(abortPath{"numeric store to non-numeric buffer " + b.what})
 	}
@@ -590,6 +596,9 @@ func (ex *Exec) bufStore(b *Buf, off *Term, t types.Type, v V, guard *Term) {
 		panic(abortPath{"guarded store of non-numeric value"})
 	}
 	ci := ex.genCell(b, off, t)
+	if ex.evlog != nil {
+		ex.evStoreBuf(b, guard)
+	}
 	ex.storeInto(&b.cells[ci], t, v)
 }
 
